@@ -231,6 +231,106 @@ Section WithDigest.
     N.of_nat (List.length (filter (fun d => d <? range) (records_by_distance self_peer keys))).
 End WithDigest.
 
+(* ------------------------------------------------------------------ the fetcher's scheduler
+   ReplicationFetcher::next_keys_to_fetch over an arbitrary backlog.  `to_be_fetched` is a hash map
+   keyed by (key, type, holder): its iteration order is the explicit argument `pending` (any order,
+   any multiset: the same (key, type) may be pending from several holders); `on_going_fetches` is keyed
+   by (key, type).  The distance of an entry is the distance of its record key to ourselves,
+   `dk key`; everything below is generic in `dk`, the real instance is `key_dist H self_peer`. *)
+
+Definition kt := (bytes * N)%type.                 (* record key, record-type tag *)
+Definition entry := (bytes * N * bytes)%type.      (* record key, record-type tag, holder *)
+Definition entry_key (e : entry) : bytes := fst (fst e).
+Definition entry_kt (e : entry) : kt := fst e.
+Definition entry_holder (e : entry) : bytes := snd e.
+Definition kt_eqb (a b : kt) : bool := bytes_eqb (fst a) (fst b) && (snd a =? snd b).
+Definition entry_eqb (a b : entry) : bool := kt_eqb (fst a) (fst b) && bytes_eqb (snd a) (snd b).
+Definition mem_kt (x : kt) (l : list kt) : bool := existsb (kt_eqb x) l.
+Definition mem_entry (x : entry) (l : list entry) : bool := existsb (entry_eqb x) l.
+
+Section Scheduler.
+  Variable dk : bytes -> N.
+  Definition edist (e : entry) : N := dk (entry_key e).
+
+  (* the pick loop: walk the ordered backlog, take an entry when there is capacity left and its
+     (key, type) is not in flight (this also skips the same (key, type) offered by another holder) *)
+  Fixpoint fetch_walk (maxp : N) (order : list entry) (inflight : list kt) : list entry :=
+    match order with
+    | [] => []
+    | e :: r =>
+        if (N.of_nat (List.length inflight) <? maxp) && negb (mem_kt (entry_kt e) inflight)
+        then e :: fetch_walk maxp r (entry_kt e :: inflight)
+        else fetch_walk maxp r inflight
+    end.
+
+  Definition next_keys_generic (maxp : N) (pending : list entry) (inflight : list kt) : list entry :=
+    if maxp <=? N.of_nat (List.length inflight) then []          (* no free fetch capacity *)
+    else fetch_walk maxp (sort_on edist pending) inflight.
+
+  Fixpoint sortedb (l : list N) : bool :=
+    match l with
+    | x :: ((y :: _) as r) => (x <=? y) && sortedb r
+    | _ => true
+    end.
+
+  Fixpoint nodup_kt (l : list kt) : bool :=
+    match l with
+    | [] => true
+    | x :: r => negb (mem_kt x r) && nodup_kt r
+    end.
+
+  (* acceptor: "picked is what a scheduling call may hand out from this backlog": ascending by
+     distance, pending and not in flight, one entry per (key, type), within capacity, and nothing
+     that stays behind is closer than anything picked (and stays behind only when capacity is used up) *)
+  Definition sched_ok (maxp : N) (pending : list entry) (inflight : list kt) (picked : list entry) : bool :=
+    let total := N.of_nat (List.length inflight + List.length picked) in
+    sortedb (map edist picked) &&
+    forallb (fun p => mem_entry p pending && negb (mem_kt (entry_kt p) inflight)) picked &&
+    nodup_kt (map entry_kt picked) &&
+    (total <=? N.max maxp (N.of_nat (List.length inflight))) &&
+    forallb (fun e => mem_kt (entry_kt e) inflight || mem_kt (entry_kt e) (map entry_kt picked) ||
+                      ((maxp <=? total) && forallb (fun p => edist p <=? edist e) picked)) pending.
+
+  (* what precedes the scheduling call inside each fetcher operation (nothing stored locally, no
+     farthest-distance limit, no expiry; adverts with at least two new keys: the single-key fast path
+     is C08's subject) *)
+  Inductive fstep :=
+  | FAdd (holder : bytes) (keys : list kt)
+  | FPut (key : bytes) (t : N)
+  | FEarly (key : bytes) (t : N)
+  | FNext.
+
+  Definition step_pre (range : option N) (st : fstep) (pending ongoing : list entry) : list entry * list entry :=
+    match st with
+    | FAdd holder keys =>
+        let in_range := match range with
+                        | Some r => filter (fun k => convert_distance_to_u256 (dk (fst k)) <=? r) keys
+                        | None => keys
+                        end in
+        (fold_left (fun acc k => if mem_entry (k, holder) acc then acc else acc ++ [(k, holder)]) in_range pending,
+         ongoing)
+    | FPut key t =>
+        (filter (fun e => negb (kt_eqb (entry_kt e) (key, t))) pending,
+         filter (fun e => negb (bytes_eqb (entry_key e) key)) ongoing)
+    | FEarly key t =>
+        (filter (fun e => negb (kt_eqb (entry_kt e) (key, t))) pending,
+         filter (fun e => negb (kt_eqb (entry_kt e) (key, t))) ongoing)
+    | FNext => (pending, ongoing)
+    end.
+
+  Definition same_entries (a b : list entry) : bool :=
+    Nat.eqb (List.length a) (List.length b) && forallb (fun x => mem_entry x b) a && forallb (fun x => mem_entry x a) b.
+
+  (* one recorded step: both maps before, the entries that went in flight (in hand-out order),
+     both maps after *)
+  Definition agree_fetch_step (maxp : N) (range : option N) (st : fstep)
+             (pre_p pre_o picked post_p post_o : list entry) : bool :=
+    let '(p1, o1) := step_pre range st pre_p pre_o in
+    sched_ok maxp p1 (map entry_kt o1) picked &&
+    same_entries post_p (filter (fun e => negb (mem_entry e picked)) p1) &&
+    same_entries post_o (o1 ++ picked).
+End Scheduler.
+
 (* ------------------------------------------------------------------ agreement predicates
    (what the generated case files evaluate: "the model, run on this case, returns what the
    implementation returned") *)
@@ -295,4 +395,42 @@ Section Agree.
 
   Definition agree_store_count (self_peer : bytes) (keys : list bytes) (range : N) (n : N) : bool :=
     records_within_distance_range H self_peer keys range =? n.
+
+  (* the real distance of a record key to ourselves, and the scheduler at that distance *)
+  Definition key_dist (self_peer : bytes) (k : bytes) : N :=
+    distance H (from_peer self_peer) (from_record_key k).
+  Definition next_keys_to_fetch (self_peer : bytes) (maxp : N) (pending : list entry) (inflight : list kt) : list entry :=
+    next_keys_generic (key_dist self_peer) maxp pending inflight.
+
+  (* a whole recorded history of one fetcher; the distance of every key occurring in it is computed
+     once (`keys` lists them) and looked up afterwards *)
+  Fixpoint lookup_dist (tbl : list (bytes * N)) (k : bytes) : N :=
+    match tbl with
+    | [] => 0
+    | (k', d) :: r => if bytes_eqb k' k then d else lookup_dist r k
+    end.
+  Definition dist_table (self_peer : bytes) (keys : list bytes) : list (bytes * N) :=
+    let hs := kbucket_key H (from_peer self_peer) in
+    map (fun k => (k, N.lxor hs (kbucket_key H (from_record_key k)))) keys.
+
+  Definition fetch_record := (fstep * (list entry * list entry) * list entry * (list entry * list entry))%type.
+
+  (* every record key whose distance a recorded step needs *)
+  Definition record_keys (r : fetch_record) : list bytes :=
+    match r with
+    | (st, (pre_p, _), picked, _) =>
+        match st with FAdd _ ks => map fst ks | _ => [] end ++ map entry_key pre_p ++ map entry_key picked
+    end.
+  Definition mem_bytes (k : bytes) (l : list bytes) : bool := existsb (bytes_eqb k) l.
+
+  Definition agree_fetch_sched (self_peer : bytes) (maxp : N) (range : option N) (keys : list bytes)
+             (steps : list fetch_record) : bool :=
+    let tbl := dist_table self_peer keys in
+    (maxp =? Consts.fetcher_max_parallel) &&
+    forallb (fun r : fetch_record =>
+               forallb (fun k => mem_bytes k keys) (record_keys r) &&
+               match r with
+               | (st, (pre_p, pre_o), picked, (post_p, post_o)) =>
+                   agree_fetch_step (lookup_dist tbl) maxp range st pre_p pre_o picked post_p post_o
+               end) steps.
 End Agree.
